@@ -6,6 +6,7 @@ package zzverifpositive
 import (
 	"archive/zip"
 	"bytes"
+	"compress/zlib"
 	"encoding/csv"
 	stdhtml "html"
 	"io"
@@ -68,8 +69,7 @@ func LeaksOnError(name string) (*os.File, error) {
 
 var pool sync.Pool
 
-// UsesPackagePool violates R3.1 (address of package-level storage handed to
-// sync.Pool, which mutates it).
+// UsesPackagePool violates R3.13 (the object is handed out although it went back to the pool).
 func UsesPackagePool() any {
 	v := pool.Get()
 	pool.Put(v)
@@ -468,6 +468,7 @@ type Reader struct {
 	lines   []string
 	counter int
 	title   *string
+	memo    map[int][]int
 }
 
 func (r *Reader) NumberedLines() []string {
@@ -486,4 +487,55 @@ func (r *Reader) Title() *string {
 	t := strings.Join(r.lines, " ")
 	r.title = &t
 	return r.title
+}
+
+// Reader.Expand violates R4.12: the memo is keyed by n but the answer depends on the path too.
+func (r *Reader) Expand(n int, onPath map[int]bool) []int {
+	if got, ok := r.memo[n]; ok {
+		return got
+	}
+	var out []int
+	if !onPath[n] {
+		onPath[n] = true
+		out = append(out, r.Expand(n/2, onPath)...)
+		delete(onPath, n)
+	}
+	out = append(out, n)
+	r.memo[n] = out
+	return out
+}
+
+// XRefEntry.FilePosition violates R4.13: the second field is read without looking at the type.
+type XRefEntry struct {
+	Type   int
+	Offset int64
+}
+
+func FilePosition(e *XRefEntry) int64 {
+	if e.Offset < 8 {
+		return -1
+	}
+	if e.Type == 1 {
+		return e.Offset
+	}
+	return 0
+}
+
+// InflatesTrimmed violates R5.15, HandsOutPooled violates R3.13.
+var scratch = sync.Pool{New: func() interface{} { return new(bytes.Buffer) }}
+
+func InflatesTrimmed(data []byte) ([]byte, error) {
+	zr, err := zlib.NewReader(bytes.NewReader(bytes.TrimRight(data, "\r\n")))
+	if err != nil {
+		return nil, err
+	}
+	return io.ReadAll(zr)
+}
+
+func HandsOutPooled(data []byte) []byte {
+	buf := scratch.Get().(*bytes.Buffer)
+	buf.Reset()
+	defer scratch.Put(buf)
+	buf.Write(data)
+	return buf.Bytes()
 }
